@@ -31,6 +31,10 @@ def run_check(pid, family, tags, rule, corrupt=None, findings=None, crash_owner=
             import convk                 # (C13 owns only the refusal half: zero rate / unavailable average)
             nk, kcov = convk.check(pid, tier, refusal_only=(pid == "C13"))
             extra["conversion_kernel"] = {k: kcov[k] for k in ("mc_configs", "kernel_calls_compared", "mismatches", "self_test")}
+        if pid == "C16":                 # the real PEG bank kernel (Payouts, Refund) vs. LedgerBlock.PegYields / Refund on all small request vectors
+            import bankk
+            nk, bcov = bankk.check(pid)
+            extra["bank_kernel"] = {k: bcov[k] for k in ("kernel_calls_compared", "mismatches", "self_test")}
         rc = ledger.finish(pid, results, stats, tags, t0, mc=mcres, rule=rule,
                              samples=[ledger.sample_of(r) for r in results[:2]],
                              assumptions=list(assumptions) or ["fake factomd serves exactly the generated chain", "TLC and the Big.tla arithmetic",
